@@ -6,6 +6,7 @@ import (
 	"fmt"
 	"strings"
 	"sync"
+	"sync/atomic"
 
 	ipfslog "berty.tech/go-ipfs-log"
 	"berty.tech/go-ipfs-log/iface"
@@ -50,10 +51,15 @@ type replicator struct {
 	concurrency int64
 
 	tasks map[cid.Cid]queuedState
+	// givenUp holds the failed hashes that were given up because the request whose worker
+	// had them was over (cancelled, timed out), not because they could not be fetched
+	givenUp map[cid.Cid]struct{}
 
 	sem       *semaphore.Weighted
 	queue     *processQueue
 	muProcess sync.RWMutex
+	// condTasks is signalled (muProcess held) whenever a task is fetched or given up
+	condTasks *sync.Cond
 
 	buffer   []ipfslog.Log
 	muBuffer sync.Mutex
@@ -97,11 +103,13 @@ func NewReplicator(store storeInterface, concurrency uint, opts *Options) (Repli
 		concurrency: int64(concurrency),
 		store:       store,
 		tasks:       make(map[cid.Cid]queuedState),
+		givenUp:     make(map[cid.Cid]struct{}),
 		queue:       &processQueue{},
 		logger:      opts.Logger,
 		tracer:      opts.Tracer,
 		sem:         semaphore.NewWeighted(int64(concurrency)),
 	}
+	r.condTasks = sync.NewCond(&r.muProcess)
 	if err := r.generateEmitter(opts.EventBus); err != nil {
 		return nil, err
 	}
@@ -155,6 +163,16 @@ func (r *replicator) GetQueue() []cid.Cid {
 	return fetching
 }
 
+// request is what one Load call keeps track of: its workers, and the hashes it asked for
+// while an earlier request was still taking care of them
+type request struct {
+	wg sync.WaitGroup
+
+	// involved is set once the request has queued a hash of its own or has found one it
+	// asked for in the hands of an earlier request
+	involved atomic.Bool
+}
+
 func (r *replicator) Load(ctx context.Context, entries []ipfslog.Entry) {
 	cidsStrings := make([]string, len(entries))
 	for i, e := range entries {
@@ -168,7 +186,7 @@ func (r *replicator) Load(ctx context.Context, entries []ipfslog.Entry) {
 	ctx, cancel := r.rootContextWithCancel(ctx)
 	defer cancel()
 
-	wg := sync.WaitGroup{}
+	req := &request{}
 
 	// process and wait the whole queue to complete
 	r.muProcess.Lock()
@@ -181,48 +199,124 @@ func (r *replicator) Load(ctx context.Context, entries []ipfslog.Entry) {
 		}
 
 		delete(r.tasks, hash)
+		delete(r.givenUp, hash)
 		if exist := r.AddHashToQueue(hash); exist {
 			continue
 		}
 
-		wg.Add(1)
+		req.involved.Store(true)
+		req.wg.Add(1)
 		go func() {
-			if err := r.processOne(ctx, &wg); err != nil {
+			if err := r.processOne(ctx, req); err != nil {
 				r.logger.Warn("unable to process entry", zap.Error(err))
 			}
 
-			wg.Done()
+			req.wg.Done()
 		}()
 	}
 
 	for i, entry := range entries {
 		if exist := r.AddEntryToQueue(entry); exist {
+			if r.handledElsewhere(entry.GetHash()) {
+				req.involved.Store(true)
+			}
+
 			continue
 		}
+
+		req.involved.Store(true)
 
 		// signal that we add an entry to the queue
 		if err := r.emitters.evtLoadAdded.Emit(NewEventLoadAdded(entry.GetHash(), entry)); err != nil {
 			r.logger.Warn("unable to emit event load added", zap.Error(err))
 		}
 
-		wg.Add(1)
+		req.wg.Add(1)
 
 		// add one process
 		go func(_ int) {
-			if err := r.processOne(ctx, &wg); err != nil {
+			if err := r.processOne(ctx, req); err != nil {
 				r.logger.Warn("unable to process entry", zap.Error(err))
 			}
 
-			wg.Done()
+			req.wg.Done()
 		}(i)
 	}
 	r.muProcess.Unlock()
 
-	wg.Wait()
+	req.wg.Wait()
+
+	r.takeOver(ctx, req)
+}
+
+// takeOver keeps a request going while hashes are given up by workers of requests that are
+// over. Workers and queued items are not tied to each other: a worker of a cancelled request
+// takes whatever item comes next off the queue when it gives up, and a request that finds its
+// hashes already in the hands of an earlier one starts no worker at all. Either way a live
+// request could return with part of what it asked for given up by somebody else, and nothing
+// left to retry it. A request that was involved in the replicator's work therefore waits until
+// that work has come to an end and fetches itself what was given up meanwhile
+func (r *replicator) takeOver(ctx context.Context, req *request) {
+	if !req.involved.Load() {
+		return
+	}
+
+	stop := context.AfterFunc(ctx, func() {
+		r.muProcess.Lock()
+		r.condTasks.Broadcast()
+		r.muProcess.Unlock()
+	})
+	defer stop()
+
+	for ctx.Err() == nil {
+		started, busy := false, false
+
+		r.muProcess.Lock()
+		for hash, state := range r.tasks {
+			switch state {
+			case stateAdded, stateFetching:
+				busy = true
+
+			case stateFailed:
+				if _, ok := r.givenUp[hash]; !ok {
+					// could not be fetched: left to the next request, as ever
+					continue
+				}
+
+				delete(r.tasks, hash)
+				delete(r.givenUp, hash)
+				if exist := r.AddHashToQueue(hash); exist {
+					continue
+				}
+
+				started = true
+				req.wg.Add(1)
+				go func() {
+					if err := r.processOne(ctx, req); err != nil {
+						r.logger.Warn("unable to process entry", zap.Error(err))
+					}
+
+					req.wg.Done()
+				}()
+			}
+		}
+
+		if !started {
+			if !busy {
+				r.muProcess.Unlock()
+				return
+			}
+
+			r.condTasks.Wait()
+		}
+		r.muProcess.Unlock()
+
+		req.wg.Wait()
+	}
 }
 
 // processOne wait for a process slot then process one element of the queue
-func (r *replicator) processOne(ctx context.Context, wg *sync.WaitGroup) error {
+func (r *replicator) processOne(ctx context.Context, req *request) error {
 	verifhook.Point("replicator.before-slot", r)
 	// wait for a process slot
 	e, err := r.waitForProcessSlot(ctx)
@@ -233,12 +327,12 @@ func (r *replicator) processOne(ctx context.Context, wg *sync.WaitGroup) error {
 		return err
 	}
 
-	if err := r.processItems(ctx, wg, e); err != nil {
+	if err := r.processItems(ctx, req, e); err != nil {
 		r.logger.Warn("process item ended", zap.Error(err))
 
 		verifhook.Point("replicator.before-done", r)
 		// not fetched: the next request will ask for it again
-		r.processEntryFailed(e)
+		r.processEntryFailed(e, ctx.Err() != nil)
 		return nil
 	}
 
@@ -249,7 +343,7 @@ func (r *replicator) processOne(ctx context.Context, wg *sync.WaitGroup) error {
 }
 
 // processItems process an entry then add to the queue every next entry
-func (r *replicator) processItems(ctx context.Context, wg *sync.WaitGroup, items ...processItem) error {
+func (r *replicator) processItems(ctx context.Context, req *request, items ...processItem) error {
 	// mark this entry has done
 	for _, item := range items {
 		next, err := r.processHash(ctx, item)
@@ -260,18 +354,22 @@ func (r *replicator) processItems(ctx context.Context, wg *sync.WaitGroup, items
 		r.muProcess.Lock()
 		for _, hash := range next {
 			if exist := r.AddHashToQueue(hash); exist {
+				if r.handledElsewhere(hash) {
+					req.involved.Store(true)
+				}
+
 				continue
 			}
 
-			wg.Add(1)
+			req.wg.Add(1)
 
 			// add process
 			go func() {
-				if err := r.processOne(ctx, wg); err != nil {
+				if err := r.processOne(ctx, req); err != nil {
 					r.logger.Warn("unable to process entry", zap.Error(err))
 				}
 
-				wg.Done()
+				req.wg.Done()
 			}()
 		}
 		r.muProcess.Unlock()
@@ -392,6 +490,7 @@ func (r *replicator) processEntryDone(item processItem) {
 
 	// remove hash from queued list
 	r.tasks[item.GetHash()] = stateFetched
+	r.condTasks.Broadcast()
 
 	// if there no more task to proceed, trigger idle method
 	if r.isIdle() {
@@ -405,12 +504,18 @@ func (r *replicator) processEntryDone(item processItem) {
 }
 
 // processEntryFailed releases the slot of an item that could not be fetched
-func (r *replicator) processEntryFailed(item processItem) {
+func (r *replicator) processEntryFailed(item processItem, requestOver bool) {
 	r.muProcess.Lock()
 
 	r.taskInProgress--
 
 	r.tasks[item.GetHash()] = stateFailed
+	if requestOver {
+		r.givenUp[item.GetHash()] = struct{}{}
+	} else {
+		delete(r.givenUp, item.GetHash())
+	}
+	r.condTasks.Broadcast()
 
 	if r.isIdle() {
 		r.idle()
@@ -429,6 +534,8 @@ func (r *replicator) abandonQueuedItem() {
 	if r.queue.Len() > 0 {
 		item := r.queue.Next()
 		r.tasks[item.GetHash()] = stateFailed
+		r.givenUp[item.GetHash()] = struct{}{}
+		r.condTasks.Broadcast()
 	}
 
 	if r.isIdle() {
@@ -453,6 +560,18 @@ func (r *replicator) shouldExclude(hash cid.Cid) (exist bool) {
 	return false
 }
 
+// handledElsewhere tells whether a hash that is not in the log yet is in the hands of some
+// request: queued, being fetched, or fetched with (part of) its ancestry possibly still to
+// come. It is not thread safe
+func (r *replicator) handledElsewhere(hash cid.Cid) bool {
+	if _, inLog := r.store.OpLog().Get(hash); inLog {
+		return false
+	}
+
+	state, queued := r.tasks[hash]
+	return queued && state != stateFailed
+}
+
 // AddHashToQueue is not thread safe
 func (r *replicator) AddHashToQueue(hash cid.Cid) (exist bool) {
 	_, inLog := r.store.OpLog().Get(hash)
@@ -464,6 +583,7 @@ func (r *replicator) AddHashToQueue(hash cid.Cid) (exist bool) {
 	item := newProcessHash(hash)
 	r.queue.Add(item)
 	r.tasks[hash] = stateAdded
+	delete(r.givenUp, hash)
 	return
 }
 
@@ -479,6 +599,7 @@ func (r *replicator) AddEntryToQueue(entry iface.IPFSLogEntry) (exist bool) {
 	item := newProcessEntry(entry)
 	r.queue.Add(item)
 	r.tasks[hash] = stateAdded
+	delete(r.givenUp, hash)
 	return
 }
 
